@@ -5,6 +5,7 @@ import pyModeS as pms
 from ref import cpr, frames
 from vlib import gen
 from vlib import variants
+from vlib import volume
 from vlib.core import Leg, call
 from checks import cprcommon as cg
 
@@ -16,7 +17,7 @@ RULE = ("two positions <= 1 NM apart (30% identical; latitude dense at the 58 NL
         "frame (lon mod 360), None only if the reference NL of the two encoded latitudes differ, equal parities -> RuntimeError. "
         "non-trivial = latitude within 0.02 deg of a transition, |lat|>86.5, |lon|>179.9, displaced pair, or odd-first argument order; "
         "distinct by (positions, parity, times)"
-        ' Also: int / float / datetime time stamps incl. naive datetimes inside the spring-forward hour of a pinned DST zone, hex letter case, the same two strings re-decoded with exchanged time stamps, 924 real even/odd pairs re-encoded by the reference encoder (leg corpus).')
+        ' Also: int / float / datetime time stamps incl. naive datetimes inside the spring-forward hour of a pinned DST zone, hex letter case, the same two strings re-decoded with exchanged time stamps, 924 real even/odd pairs re-encoded by the reference encoder (leg corpus), 40 000 / 300 000 distinct pairs in a row in one process with identical pairs coming back later and four concurrent callers at the end (leg volume), the first position decodes of a freshly imported package made by four threads at once (leg first_use).')
 ASSUMPTIONS = ["pairs with an encoded latitude within 1e-9 deg of an NL transition are counted, not judged", "both frames carry a type code of the same class (mixed baro/GNSS pairs are rejected by position() by design)",
                "reference encoder ref/cpr.py follows DO-260B A.1.7.3"]
 
@@ -30,7 +31,7 @@ def s_pair(draw):
     return {
         "lat1": lat1, "lon1": lon1, "lat2": lat2, "lon2": lon2,
         "par1": draw(st.integers(0, 1)), "same_parity": draw(gen.uint(0, 19)) == 0,
-        "tc1": draw(tcs), "tc2": draw(tcs), "t1": t1, "t2": t2, "as_datetime": draw(st.sampled_from([0, 0, 0, 1, 2, 3])), "hc": draw(gen.hexcase),
+        "tc1": draw(tcs), "tc2": draw(tcs), "t1": t1, "t2": t2, "as_datetime": draw(st.sampled_from([0, 0, 0, 1, 2, 3, 4, 4])), "hc": draw(gen.hexcase),
         "ctx_alt1": draw(gen.ubits(12)), "ctx_alt2": draw(gen.ubits(12)),
         "ctx_misc": draw(gen.ubits(8)), "ctx_icao": draw(gen.addresses), "df": draw(st.sampled_from([17, 17, 18])),
     }
@@ -162,7 +163,59 @@ def chk_corpus(case, note):
     return None
 
 
+
+# ---------------------------------------------------------------- volume: one process, very many distinct pairs, revisits, concurrent callers at the end
+def vol_step(a, b, k):
+    lat = (a >> 11) / 9007199254740992.0 * 170.0 - 85.0
+    lon = (b >> 11) / 9007199254740992.0 * 360.0 - 180.0
+    e0, e1 = cpr.encode(lat, lon, 0), cpr.encode(lat, lon, 1)
+    if cpr.near_transition(e0["rlat"], 1e-9) or cpr.near_transition(e1["rlat"], 1e-9):
+        return None
+    tc = 9 + (a >> 2) % 10
+    head = "%02X%06X" % ((0x88 if a & 1 else 0x90) | ((a >> 6) & 7), b & 0xFFFFFF)
+    alt = (b >> 24) & 0xFFF
+    f0 = head + "%014X%06X" % (cpr.me_airborne(tc, 0, e0["yz"], e0["xz"], alt, 0, 0, 0), (a >> 20) & 0xFFFFFF)
+    f1 = head + "%014X%06X" % (cpr.me_airborne(tc, 1, e1["yz"], e1["xz"], alt, 0, 0, 0), (a >> 21) & 0xFFFFFF)
+    if a & 2:
+        f0, f1 = f0.lower(), f1.lower()
+    newer = e0 if a & 32 else e1
+    r = call(pms.adsb.position, f0, f1, 2 if a & 32 else 1, 1 if a & 32 else 2)
+    if r[0] != "ok":
+        return "position(%s, %s, ...) raised %r" % (f0, f1, r[1:])
+    if r[1] is None:
+        n0, n1 = cpr.NL_set(e0["rlat"]), cpr.NL_set(e1["rlat"])
+        return "position(%s, %s, ...) returned None although both latitudes have NL=%s" % (f0, f1, sorted(n0)) if len(n0) == 1 and n0 == n1 else None
+    try:
+        ok = within(r[1], newer)
+    except Exception:
+        ok = False
+    return None if ok else "position(%s, %s, %s) = %r, encoded position of the newer frame (%r, %r)" % (f0, f1, "2, 1" if a & 32 else "1, 2", r[1], newer["rlat"], newer["rlon"])
+
+
+
+# ---------------------------------------------------------------- first calls of a freshly imported package, four threads at once
+def first_jobs(rng):
+    jobs = []
+    for _ in range(24):
+        lat, lon = rng.uniform(-80, 80), rng.uniform(-180, 180)
+        e0, e1 = cpr.encode(lat, lon, 0), cpr.encode(lat, lon, 1)
+        if cpr.near_transition(e0["rlat"], 1e-6) or cpr.near_transition(e1["rlat"], 1e-6) or cpr.NL(e0["rlat"]) != cpr.NL(e1["rlat"]):
+            continue
+        f0 = frames.tohex(frames.df17(rng.getrandbits(24), cpr.me_airborne(11, 0, e0["yz"], e0["xz"], rng.getrandbits(12), 0, 0, 0)), 112, "U")
+        f1 = frames.tohex(frames.df17(rng.getrandbits(24), cpr.me_airborne(11, 1, e1["yz"], e1["xz"], rng.getrandbits(12), 0, 0, 0)), 112, "U")
+
+        def judge(got, e1=e1, f0=f0, f1=f1):
+            try:
+                return None if got[0] == "ok" and got[1] is not None and within(got[1], e1) else "encoded position (%r, %r)" % (e1["rlat"], e1["rlon"])
+            except Exception:
+                return "encoded position (%r, %r)" % (e1["rlat"], e1["rlon"])
+        jobs.append(("adsb.position", (f0, f1, 1, 2), judge))
+    return jobs
+
+
 LEGS = [
+    variants.first_use_leg(first_jobs),
+    volume.leg(vol_step, 140000, 300000, "140 000 (thorough: 300 000 per process) distinct airborne pairs in one process; identical pairs decoded again after 4100 ... 263 000 others; four concurrent callers at the end", finale=500),
     Leg("corpus", chk_corpus, enum=enum_corpus, exhaustive=True, doc="real even/odd pairs from the repository's sample data: decoded position re-encodes (reference encoder) to the transmitted CPR fields"),
     Leg("global_pair", chk_pair, strategy=s_pair, quick=32000, thorough=1500000,
         doc="even/odd airborne pair x time order x argument order x {position, airborne_position}"),
